@@ -3,7 +3,7 @@
 set -u
 name=$1; patch=$2; demo=$3
 wt=/tmp/wt/val-$name
-git -C /repo worktree add -q --detach $wt HEAD || exit 9
+git -C /repo worktree add -q --detach $wt ${BASE:-HEAD} || exit 9
 cd $wt
 timeout 600 /venv/bin/python $demo >/tmp/wt/val-$name.clean.log 2>&1; c=$?
 git apply $patch || { echo "$name: patch does not apply"; cd /; git -C /repo worktree remove --force $wt; exit 9; }
